@@ -45,11 +45,16 @@ func (e *Exec) call(call *ast.CallExpr, c *Ctx, want int) []Term {
 	if c.spec {
 		return []Term{e.specCall(call, c)}
 	}
-	if c.fr.top && c.fr.contract != nil && len(c.fr.contract.OnCall) > 0 && !e.inSpawn {
+	// call sites inside function literals of the function under verification belong to it as well
+	hf := c.fr
+	for hf != nil && !hf.top && hf.parent != nil && hf.parent.fi == hf.fi {
+		hf = hf.parent
+	}
+	if hf != nil && hf.top && hf.contract != nil && len(hf.contract.OnCall) > 0 && !e.inSpawn {
 		if key, ok := e.callOrd[call]; ok {
-			e.ghostAt(c, key+":before")
+			e.ghostAt(c, hf, key+":before")
 			r := e.call2(call, c, want)
-			e.ghostAt(c, key+":after")
+			e.ghostAt(c, hf, key+":after")
 			return r
 		}
 	}
@@ -57,12 +62,12 @@ func (e *Exec) call(call *ast.CallExpr, c *Ctx, want int) []Term {
 }
 
 // ghostAt runs the ghost assignments attached to a call site of the function under verification.
-func (e *Exec) ghostAt(c *Ctx, key string) {
-	as := c.fr.contract.OnCall[key]
+func (e *Exec) ghostAt(c *Ctx, hf *Frame, key string) {
+	as := hf.contract.OnCall[key]
 	if len(as) == 0 || c.st.dead() {
 		return
 	}
-	sc := &Ctx{st: c.st, fr: c.fr, spec: true, old: c.fr.entry}
+	sc := &Ctx{st: c.st, fr: c.fr, spec: true, old: hf.entry}
 	for _, a := range as {
 		e.assign(a.LHS, e.eval(a.RHS, sc), sc)
 	}
@@ -575,11 +580,26 @@ func (e *Exec) builtin(name string, call *ast.CallExpr, c *Ctx, want int) []Term
 				return []Term{e.uninterp("appendstr", []Term{s, o}, s.T)}
 			}
 			e.assume(c.st, fmt.Sprintf("(and (>= %s 0) (>= %s 0))", e.seqLen(s), e.seqLen(o)))
+			if so := e.sliceOrig[s.S]; so != nil && !c.spec {
+				e.safetyAssert(c, "append-aliasing", fmt.Sprintf("(or (= %s 0) (>= (+ %s %s) %s))", e.seqLen(o), so.lo, e.seqLen(s), e.seqLen(so.base)),
+					exprText(call.Args[0]), call)
+				r := e.seqConcat(s, o)
+				e.sliceOrig[r.S] = so
+				return []Term{r}
+			}
 			return []Term{e.seqConcat(s, o)}
+		}
+		so := e.sliceOrig[s.S]
+		if so != nil && !c.spec {
+			e.safetyAssert(c, "append-aliasing", fmt.Sprintf("(>= (+ %s %s) %s)", so.lo, e.seqLen(s), e.seqLen(so.base)),
+				exprText(call.Args[0]), call)
 		}
 		cur := s
 		for _, a := range call.Args[1:] {
 			cur = e.seqAppendOne(cur, e.coerce(e.eval(a, c), s.T.Elem, c.st))
+		}
+		if so != nil {
+			e.sliceOrig[cur.S] = so
 		}
 		return []Term{cur}
 	case "delete":
@@ -1335,6 +1355,13 @@ func (e *Exec) specCall(call *ast.CallExpr, c *Ctx) Term {
 				v = Term{v.S, e.specType(call.Args[1], c)}
 			}
 			return e.toAny(v, c.st)
+		case "ifacenil":
+			// ifacenil(i): the interface value is nil or holds a nil pointer/map/channel/function (reflect-style nil test)
+			v := e.eval(call.Args[0], c)
+			if v.T.K != KAny {
+				return Term{e.eqTerm(v, Term{"0", tNil}, c.st), tBool}
+			}
+			return Term{fmt.Sprintf("(or (= %s A_nil) (and ((_ is A_box) %s) (ptrtag (a_tag %s)) (= (a_val %s) 0)))", v.S, v.S, v.S, v.S), tBool}
 		case "isnil":
 			v := e.eval(call.Args[0], c)
 			return Term{e.eqTerm(v, Term{"0", tNil}, c.st), tBool}
@@ -1435,6 +1462,9 @@ func (e *Exec) specCall(call *ast.CallExpr, c *Ctx) Term {
 					v = e.coerce(v, gf.PT[i], c.st)
 				}
 				args = append(args, v)
+			}
+			if gf.Spec && c.st.tmpl == nil {
+				return e.specFnCall(gf, args, c)
 			}
 			if gf.Body != nil {
 				// macro expansion
@@ -1717,4 +1747,75 @@ func (e *Exec) closedDispatch(fn *types.Func, recv Term, args []Term, call *ast.
 		}
 	}
 	return out
+}
+
+// specDef: a spec function, sf!name(params..., heap arrays it reads...), with its defining axiom.
+type specDef struct {
+	name  string
+	keys  []string
+	types []*Type
+}
+
+func (e *Exec) specFnCall(gf *GhostFunc, args []Term, c *Ctx) Term {
+	d := e.specDefs[gf.Name]
+	if d == nil {
+		d = &specDef{name: "sf!" + gf.Name}
+		e.specDefs[gf.Name] = d
+		tst := &State{pc: "true", vars: map[string]Term{}, tmpl: &tmplInfo{}}
+		gfr := c.fr
+		if gpk := e.prog.pkgs[gf.PkgPath]; gpk != nil {
+			gfr = &Frame{pkg: gpk, info: gpk.TypesInfo, names: map[string]string{}, ntypes: map[string]*Type{}, closures: map[string]*ast.FuncLit{}}
+		}
+		c2 := &Ctx{st: tst, old: tst, fr: gfr, spec: true, bound: map[string]Term{}}
+		var binders, formals []string
+		for i, p := range gf.Params {
+			bv := Term{fmt.Sprintf("%s!q%d", p, e.nextQ()), gf.PT[i]}
+			c2.bound[p] = bv
+			binders = append(binders, fmt.Sprintf("(%s %s)", bv.S, e.Sort(bv.T)))
+			formals = append(formals, bv.S)
+		}
+		body := e.coerce(e.eval(gf.Body, c2), gf.Ret, tst)
+		d.keys, d.types = tst.tmpl.keys, tst.tmpl.types
+		var sorts []string
+		for _, t := range gf.PT {
+			sorts = append(sorts, e.Sort(t))
+		}
+		for i, k := range d.keys {
+			binders = append(binders, fmt.Sprintf("(%s %s)", tst.vars[k].S, e.Sort(d.types[i])))
+			formals = append(formals, tst.vars[k].S)
+			sorts = append(sorts, e.Sort(d.types[i]))
+		}
+		e.vc.Decl("fun:"+d.name, fmt.Sprintf("(declare-fun %s (%s) %s)", d.name, strings.Join(sorts, " "), e.Sort(gf.Ret)))
+		app := d.name
+		opaque := false
+		if e.topCon != nil {
+			for _, o := range e.topCon.Opaque {
+				if o == gf.Name {
+					opaque = true
+				}
+			}
+		}
+		if opaque {
+			e.note("spec function %s is opaque here: its definition is not among the premises", gf.Name)
+		} else if len(formals) > 0 {
+			app = fmt.Sprintf("(%s %s)", d.name, strings.Join(formals, " "))
+			e.vc.AddSpecAxiom(fmt.Sprintf("(forall (%s) (! (= %s %s) :pattern (%s)))", strings.Join(binders, " "), app, body.S, app), d.name, "definition of spec function "+gf.Name)
+		} else {
+			e.vc.AddSpecAxiom(fmt.Sprintf("(= %s %s)", app, body.S), d.name, "definition of spec function "+gf.Name)
+		}
+	}
+	var as []string
+	for i, a := range args {
+		if i < len(gf.PT) {
+			a = e.coerce(a, gf.PT[i], c.st)
+		}
+		as = append(as, a.S)
+	}
+	for i, k := range d.keys {
+		as = append(as, e.get(c.st, k, d.types[i]).S)
+	}
+	if len(as) == 0 {
+		return Term{d.name, gf.Ret}
+	}
+	return Term{fmt.Sprintf("(%s %s)", d.name, strings.Join(as, " ")), gf.Ret}
 }
